@@ -241,7 +241,7 @@ PLANS["C08"] = {
     "rule": STREAM_RULE, "assumptions": STREAM_ASSUME,
     "required_features": ["stream.chunker.sentinels", "stream.chunker.fe_first_byte_of_next_chunk", "stream.chunker.trailing_FE_at_end_of_stream",
                           "stream.chunker.FE_FE_FD", "stream.chunker.block_size_below_2", "stream.chunker.reader_interrupts",
-                          "stream.chunker.arena.NearlyFull", "stream.chunker.arena.SwapBetween"],
+                          "stream.chunker.arena.NearlyFull", "stream.chunker.arena.SwapBetween", "stream.chunker.block_size_changed_between_pumps"],
     "quick": [R("stream", "dbg", mode="chunker", chunk_cases=1500000)],
     "thorough": [R("stream", "dbg", mode="chunker", chunk_cases=20000000),
                  R("stream", "rel", mode="chunker", chunk_cases=40000000),
@@ -403,7 +403,7 @@ PLANS["C18"] = {
                     "the frozen thread is released only after the verdict"],
     "required_features": ["park.writer_frozen_holding_lock", "park.writer_frozen_without_lock", "park.second_writer_blocked", "park.solo_paused_mid_read",
                           "park.solo_retried_after_writes_completed", "park.try_update_true", "park.try_update_false_lock_held",
-                          "park.static_writer_frozen_holding_lock", "park.frozen_before_Store", "park.frozen_after_Store", "park.frozen_before_Unlock"],
+                          "park.static_writer_frozen_holding_lock", "park.static_solo_observe_file_time", "park.frozen_before_Store", "park.frozen_after_Store", "park.frozen_before_Unlock"],
     "quick": [R("park", "dbg", repeats=16, max_freeze=24)],
     "thorough": [R("park", "dbg", repeats=64, max_freeze=24),
                  R("park", "rel", repeats=64, max_freeze=24),
